@@ -149,11 +149,19 @@ def _cfg_case(rnd):
     return {"kind": "config", "vendor": vendor, "tree": RL.plain(gen())}
 
 
-@st.composite
-def _cases(draw):
-    rnd = draw(urandoms())
+def _gen_from(rnd):
     return _gen_case(rnd) if rnd.chance(75) else _cfg_case(rnd)
 
+
+@st.composite
+def _cases(draw):
+    return _gen_from(draw(urandoms()))
+
+
+def fuzz_decode(fdp):
+    """coverage-guided tier: the same generator driven by fuzzer-chosen bytes (vf/core/fuzz_target.py)"""
+    from vf.model.rnd import FdpRandom
+    return _gen_from(FdpRandom(fdp))
 
 def strategy(tier):
     return _cases()
